@@ -145,7 +145,8 @@ class GatePolicy(taint.Policy):
             if vp:
                 provs.append(vp)
         short = "::".join(nn.split("::")[-2:])
-        encl = "::".join(norm_name(fn["name"]).split("::")[-2:])
+        # a closure is part of the function that contains it: `decode::{closure#0}` counts as `PublicKey::decode`
+        encl = "::".join(re.sub(r"(::\{closure#\d+\})+$", "", norm_name(fn["name"])).split("::")[-2:])
         key = (fn["id"], short)
         om = self.ordinals.setdefault(key, {})
         if bi not in om:
